@@ -223,6 +223,12 @@ extern "C" void vs_end() {
 extern "C" long long vs_now_us() { return clockUs; }
 extern "C" void vs_advance_us(long long us) { if (active && myId >= 0) clockUs += us; }
 extern "C" void vs_set_query_us(long long us) { queryUs = us; }
+extern "C" void vs_advance_us_wake(long long us) {
+    if (!(active && myId >= 0)) return;
+    clockUs += us;
+    for (int i = 0; i < nThr; i++)
+        if (i != myId && T[i].state == ST_RUNNABLE && T[i].op == OP_SLEEP && T[i].wakeUs <= clockUs) { point(OP_YIELD, nullptr, nullptr, -1, clockUs, 1); break; }
+}
 extern "C" int vs_active() { return active && myId >= 0; }
 
 static inline bool managed() { return active && myId >= 0; }
